@@ -1265,8 +1265,9 @@ class ReprStructure:
 
     def remove_columns(self, columns_names):
         """Remove specified column from self"""
+        # (clones: actual widths of the remaining columns are to be detected again)
         self.columns = [
-            c for c in self.columns
+            c.clone() for c in self.columns
             if c.name not in columns_names
         ]
 
